@@ -46,6 +46,13 @@ PAIRS_QUICK = [["sample", "counts"], ["sample10", "expZ0"], ["expZ0", "expX0"], 
                ["varY1", "sample10"], ["expSum", "countsX1"]]
 
 
+# triples whose grouping (Pauli-word groups, then measurements without observable, then other observables) permutes the
+# measurement list by a 3-cycle in some orders: the results must come back in the ORIGINAL order
+import itertools as _it
+TRIPLES = [list(p) for base in (["probs10", "expX0", "expZ0"], ["sampleH0", "expX0", "expZ0"], ["countsX1", "sample10", "varY1"])
+           for p in _it.permutations(base)]
+
+
 def letters(n):
     return ["H0", f"X{n - 1}", "RY1", "CNOT01"] + (["CNOT12"] if n == 3 else [])
 
@@ -355,6 +362,9 @@ def run(ctx):
                 for m in SINGLES:
                     for s in shots_single:
                         specs.append({"dev": dev, "n": n, "ops": ops, "meas": [m], "shots": s, "rng": "numpy", "cap": cap})
+                if n == 2 and len(ops) <= (1 if ctx.quick else 2):
+                    for tr in TRIPLES:
+                        specs.append({"dev": dev, "n": n, "ops": ops, "meas": tr, "shots": 1, "rng": "numpy", "cap": max(cap, 128)})
                 if n == 2 and not (ctx.quick and dev == "default.mixed"):
                     for pr in pairs:
                         for s in ([1, 2, [1, 1]] if ctx.quick else [1, 2]):
